@@ -109,6 +109,8 @@ def units():
                  lambda m=None: __import__("checks.c14", fromlist=["x"]).run_solve_step(m, prefixes=P), props=["C05", "C14"], timeout=300),
             Unit("DataHandler.save_time_step[layout]", "tdgl.solver.runner:DataHandler.save_time_step",
                  lambda m=None: __import__("checks.writer_common", fromlist=["x"]).run_writer_layout(m, prefixes=P), props=["C05", "C15"], timeout=300),
+            Unit("save_time_step -> TDGLData.from_hdf5", "tdgl.solver.runner:DataHandler.save_time_step -> tdgl.solution.data:TDGLData.from_hdf5 / load_state_data",
+                 lambda m=None: __import__("checks.writer_common", fromlist=["x"]).run_frame_round_trip(m, prefixes=P), props=["C05", "C14"], timeout=300),
             Unit("update[no screening, static A]", "tdgl.solver.solver:TDGLSolver.update", _upd(False, False), props=["C05"], timeout=900),
             Unit("update[screening, static A]", "tdgl.solver.solver:TDGLSolver.update", _upd(True, False), props=["C05"], timeout=900),
             _h.bounded_unit("frames, times and records of real runs [bounded]", "tdgl.solver.runner:Runner / tdgl.solution.data:DynamicsData (real h5py)", "C05", _bounded_quick, "frames_times_and_records_match_the_executable_specification[N<=5 exhaustive]", timeout=900)]
